@@ -162,7 +162,7 @@ def gen_sim(rng, i):
     kh, kw = rng.choice([1, 3, 3, 5]), rng.choice([1, 3, 3, 5])
     if i % 9 == 4: kh, kw = rng.choice([(3, 4), (1, 2), (5, 6), (2, 3), (4, 4), (2, 1)])     # rejected kernels
     even = kh % 2 == 0 or kw % 2 == 0
-    edge = (i % 3 == 1)                     # a mask touching the frame edge: apply_mask pads the dataset
+    edge = (i % 5 in (1, 3))                # a mask touching the frame edge: apply_mask pads the dataset
     H = rng.randint(kh + 1, 6 if edge else 8); W = rng.randint(kw + 1, 6 if edge else 8)
     normalize = bool(rng.random() < 0.5)
     sky = Fraction(0) if i % 4 == 3 else rng.choice([Fraction(1, 4), Fraction(1), Fraction(5, 2), Fraction(10), Fraction(75, 2),
@@ -349,7 +349,7 @@ def run_hist(aa, inp):
     how = inp["how"]; sparse = inp["sparse"]
     kh, kw = len(K), len(K[0])
     nun = sum(1 for r in m for b in r if not b)
-    cases, notes, bad = [], [], []
+    cases, kept, bad = [], [], []
     def unchanged(what, obj, want):
         got = fracs(obj)
         if got != list(want): bad.append(f"{what} was modified by the call (or is stale): {[str(x) for x in got][:12]} expected {[str(x) for x in want][:12]}")
@@ -369,7 +369,7 @@ def run_hist(aa, inp):
         nb = int(bm.pixels_in_mask)
         def conv(cv, mk, Kk, io, iv, bo, bv, tag):
             res = cv.convolve_image(image=io, blurring_image=bo)
-            o = fracs(res.slim)
+            o = fracs(res.slim); kept.append((tag + " result", res, o))
             cases.append(f"(KConvolve {cmask(mk)} {cqm(Kk)} {cqv(iv)} {cqv(bv)} {cqv(o)})")
             unchanged(tag + " image", io.slim, iv); unchanged(tag + " blurring image", bo.slim, bv)
         img1, bimg1 = vals(nun), vals(nb)
@@ -382,10 +382,12 @@ def run_hist(aa, inp):
         M = [vals(P) for _ in range(nun)]; Mo = np.array([fl(r) for r in M])
         res = c.convolve_mapping_matrix(mapping_matrix=Mo)
         cases.append(f"(KMatrix {cmask(m)} {cqm(K)} {cqm(M)} {cqm([fracs(r) for r in np.asarray(res)])})")
+        kept.append(("step 3 blurred mapping matrix", res, fracs(res)))
         unchanged("mapping matrix", Mo, [v for r in M for v in r])
         # the same image object again, through the other method
         res = c.convolve_image_no_blurring(image=i1)
         cases.append(f"(KNoBlur {cmask(m)} {cqm(K)} {cqv(img1)} {cqv(fracs(res.slim))})")
+        kept.append(("step 4 result", res, fracs(res.slim)))
         unchanged("step 4 image", i1.slim, img1)
         # in-place edits by the user, then the same objects again
         _ = np.array(i1.native)
@@ -402,7 +404,12 @@ def run_hist(aa, inp):
         res = c.convolve_mapping_matrix(mapping_matrix=Mo)
         cases.append(f"(KMatrix {cmask(m)} {cqm(K)} {cqm(M)} {cqm([fracs(r) for r in np.asarray(res)])})")
         # a second convolver with the same shapes but another mask and kernel, then the first one again
-        mask2 = build_mask(aa, m2, "plain", m); kernel2 = build_kernel(aa, K2, "plain", rng)
+        # (seed % 3: both other / the SAME mask object with another kernel / the SAME kernel object with another mask)
+        v7 = inp["seed"] % 3
+        if v7 == 1: m2 = m
+        if v7 == 2: K2 = K
+        mask2 = mask if v7 == 1 else build_mask(aa, m2, "plain", m)
+        kernel2 = kernel if v7 == 2 else build_kernel(aa, K2, "plain", rng)
         c2 = aa.Convolver(mask=mask2, kernel=kernel2)
         bm2 = mask2.derive_mask.blurring_from(kernel_shape_native=(kh, kw)); bml2 = [[bool(b) for b in r] for r in np.array(bm2)]
         n2 = sum(1 for r in m2 for b in r if not b); nb2 = int(bm2.pixels_in_mask)
@@ -417,6 +424,7 @@ def run_hist(aa, inp):
     for step in range(2):
         res = call_res(kernel.convolved_array_from, array=arr)
         o = ("ok", fracs(res[1].slim)) if res[0] == "ok" else res
+        if res[0] == "ok": kept.append((f"whole-frame result {step}", res[1], o[1]))
         cases.append(f"(KWhole {cmask([[False] * W for _ in range(H)])} {cqm(nat)} {cqm(K)} {cres(o, cqv)})")
         unchanged("whole-frame array", arr.slim, [v for r in nat for v in r])
         _ = np.array(arr.native)
@@ -430,6 +438,9 @@ def run_hist(aa, inp):
     o = ("ok", fracs(res[1].slim)) if res[0] == "ok" else res
     cases.append(f"(KWhole {cmask(m)} {cqm(nat2)} {cqm(K)} {cres(o, cqv)})")
     unchanged("kernel", kernel.native, kflat); unchanged("mask", np.array(mask), mflat)
+    # results handed out earlier must not change when the same objects are used again (no shared output buffers)
+    for what, obj, want in kept:
+        if fracs(obj.slim if hasattr(obj, "slim") else obj) != want: bad.append(what + " changed after later calls")
     nontrivial = nun >= 2 and sum(1 for v in kflat if v != 0) > 1
     return {"coq": cases[0], "extra_coq": cases[1:], "py_ok": (False if bad else None), "kind": "hist", "nontrivial": nontrivial,
             "out": {"steps": len(cases), "modified": bad}, "detail": {"modified": bad}}
@@ -471,7 +482,7 @@ def run_sim(aa, inp):
         return aa.Array2D.no_mask(values=[fl(r) for r in im], pixel_scales=1.0)
     objs = [make(images[0], inp["img_how"])] + [make(im, "plain") for im in images[1:]]
     order = [0] if len(images) == 1 else [0, 1, 0]
-    ds = None; data0 = None
+    ds = None; data0 = None; keep = []
     for idx in order:                       # the same simulator, the same input objects
         res = call_res(sim.via_image_from, image=objs[idx])
         if res[0] == "ok":
@@ -479,6 +490,7 @@ def run_sim(aa, inp):
             out = ("ok", ([fracs(r) for r in np.array(d.psf.native)], fracs(d.data.slim)))
             if d.data.shape_native != (H, W): bad.append(f"simulated data has shape {d.data.shape_native}, image {(H, W)}")
             if idx == 0: ds, data0 = d, out[1][1]
+            keep.append((d, out[1][1]))
         else: out = res
         cases.append(f"(KSim {cq(sky)} {cbool(subtract)} {cbool(normalize)} {cqm(images[idx])} {cqm(K)} " +
                      cres(out, lambda v: ctup([cqm(v[0]), cqv(v[1])])) + ")")
@@ -525,6 +537,8 @@ def run_sim(aa, inp):
                     detail["residual_max"].append(str(max([abs(r) for r in resid], default=0)))
                     if len(md) != len(bo) or any(r != 0 for r in resid):
                         bad.append(f"non-zero residual of the generating image on mask {j}: max {max(abs(r) for r in resid) if resid else 'length mismatch'}")
+    for d, want in keep:
+        if fracs(d.data.slim) != want: bad.append("a dataset simulated earlier changed after later calls")
     detail["modified_or_residual"] = bad
     return {"coq": cases[0], "extra_coq": cases[1:], "py_ok": (False if bad else True), "kind": "sim", "nontrivial": True,
             "out": {"cases": len(cases), "problems": bad}, "detail": detail}
